@@ -9,13 +9,14 @@
 
    Control points (where the peer task is suspended):
      W   between two attempts (run(): back-off / 100 ms pause)          CN  in _connect, awaiting the TCP connect
-     RO  in _read_open (OPEN sent)   RK  in _read_ka                     M0  _main entered, first loop iteration pending
+     RO  in _read_open (OPEN sent)   RK  in _read_ka (hold timer running)                     M0  _main entered, first loop iteration pending
      MN  main loop, nothing queued   MR  main loop, a re-send queued by a received ROUTE-REFRESH
      ST  run() returned
    own: what peer.proto is, relative to the transport the suspended coroutine uses:
-     ONone  peer.proto is None;  OSame  the coroutine's transport;  ONew  a NEWER accepted transport
-   (handle_connection replaces peer.proto under the suspended coroutine: the defect D13; in RO/RK with
-   own <> OSame the coroutine waits on a transport that was closed locally and whose read never completes.)
+     ONone  peer.proto is None;  OSame  the coroutine's transport;  ONew  an accepted transport that no
+     attempt uses yet (handle_connection accepted it; it also cancels the attempt in progress, so ONew only
+     occurs at W and ST; in RO/RK own = ONone happens after remove/shutdown: the coroutine then waits on a
+     transport that was closed locally, whose read never completes, until its timer fires).
    tdc: the pending teardown code (Peer._teardown, 0 = none); rs: Peer._restart; rq: a ROUTE-REFRESH is
    queued for sending; pb: Processes.up raises ProcessError.
 
@@ -136,14 +137,18 @@ Definition recv (s : sstate) (k : rkind) : sstate * list action :=
   | _ => (s, [])
   end.
 
-(* Peer.handle_connection *)
+(* Peer.handle_connection: refused in ESTABLISHED and (lower remote id) in OPENCONFIRM; otherwise the
+   session transport, if any, is closed, the connection is accepted, and the attempt in progress
+   (Peer._run_task) is cancelled: run() starts over (or returns when it must not restart) *)
 Definition incoming (s : sstate) (rid_ge : bool) : sstate * list action :=
   match fsm s with
   | Established => (s, [])
   | _ =>
     if fstate_eqb (fsm s) OpenConfirm && negb rid_ge then (s, [])
-    else if has_proto s then (with_own (with_fsm s Idle) ONew, close_acts s false ++ [ApiConnected])
-    else (with_own s ONew, [ApiConnected])
+    else
+      let c := match cp s with CN | RO | RK => if rs s then W else ST | c => c end in
+      if has_proto s then (with_cp (with_own (with_fsm s Idle) ONew) c, close_acts s false ++ [ApiConnected])
+      else (with_cp (with_own s ONew) c, [ApiConnected])
   end.
 
 (* a teardown that the main loop serves: now when nothing is queued, after the queued sends otherwise *)
@@ -199,7 +204,9 @@ Definition session_step (s : sstate) (e : event) : sstate * list action :=
   | Recv k => recv s k
   | Eof | SockErr =>
     if is_same s && match cp s with RO | RK | M0 | MN | MR => true | _ => false end then lost s else (s, [])
-  | HoldExpire => if in_main s && is_same s then notify_p s establish_timer_notify else (s, [])
+  | HoldExpire =>
+    if in_main s && is_same s then notify_p s establish_timer_notify
+    else match cp s with RK => notify_p s read_ka_timeout_notify | _ => (s, []) end
   | OpenWaitExpire => match cp s with RO => notify_p s openwait_notify | _ => (s, []) end
   | Teardown c =>
     let s1 := with_rs s true in
